@@ -240,7 +240,7 @@ def rfc6979(rep, tier):
 
 
 @obligation("C06", "sign_outputs_and_low_s", timeout=900,
-            bound="every key integer d and hash integer z (unbounded), every nonce k (value of the uninterpreted DRBG), every point (x_k, y_k) = k*G in [0,P)^2; QF_UFLIA")
+            bound="every 32-byte key with integer d in [1, N-1], every hash byte string of length 0..80 with z = OS2IP(whole string), every nonce k (value of the uninterpreted DRBG), every point (x_k, y_k) = k*G in [0,P)^2; QF_UFLIA")
 def sign_outputs(rep, tier):
     sp = mod(SP)
     N, P = sp.N, sp.P
@@ -251,15 +251,28 @@ def sign_outputs(rep, tier):
 
     def run(ctx):
         M = Model(sp)
-        d = SymZ.var("d", 1, N - 1)
-        z = SymZ.var("z", 0, None)
+        # message hash: a byte string of ANY length 0..80; key: 32 bytes; their integers are OS2IP of the WHOLE strings
+        OS2IP = sbytes._uf("OS2IP", SEQ, z3.IntSort())
+        hb = SymBytes.var("hash", 0, 80)
+        pb = SymBytes.var("priv", length=32)
+        d = SymZ(OS2IP(pb.t))
+        z = SymZ(OS2IP(hb.t))
+        ctx.assume(z3.And(d.t >= 1, d.t <= N - 1))
+        ctx.add_fact(z.t >= 0)
         k = SymZ.var("k", 0, 2 ** 256 - 1)
         xk = SymZ.var("xk", 0, P - 1)
         yk = SymZ.var("yk", 0, P - 1)
-        b2i = {"priv": d, "hash": z}
-        with world.patched(sp, deterministic_generate_k=lambda h, p: k, multiply=lambda g, kk: (xk, yk), inv=M.inv,
-                           bytes_to_int=lambda b: b2i[b]):
-            v, r, s = sp.ecdsa_raw_sign("hash", "priv")
+        dgk = []
+
+        def b2i(b):
+            t = SymBytes.lift(b).t
+            ctx.add_fact(OS2IP(t) >= 0)
+            return SymZ(OS2IP(t))
+        with world.patched(sp, deterministic_generate_k=lambda h, p: dgk.append((h, p)) or k, multiply=lambda g, kk: (xk, yk), inv=M.inv,
+                           bytes_to_int=b2i):
+            v, r, s = sp.ecdsa_raw_sign(hb, pb)
+        M.dgk = dgk
+        M.hb, M.pb = hb, pb
         return M, d, z, k, xk, yk, v, r, s
 
     def on_path(pth):
@@ -272,7 +285,10 @@ def sign_outputs(rep, tier):
         a_inv, n_inv, ki = M.inv_calls[-1]
         s0 = (ki * (z + r * d)) % N            # the value before the low-s normalisation, built like the code builds it
         flipped = z3.Not(s0.t * 2 < N)
-        goals = [("inv is taken of k modulo N", z3.And(a_inv.t == k.t, z3.BoolVal(n_inv == N))),
+        nonce_ok = len(M.dgk) == 1 and isinstance(M.dgk[0][0], SymBytes) and isinstance(M.dgk[0][1], SymBytes)
+        goals = [("the nonce is derived from the whole hash and the whole key (deterministic_generate_k(msghash, priv), once)",
+                  z3.And(M.dgk[0][0].t == M.hb.t, M.dgk[0][1].t == M.pb.t) if nonce_ok else z3.BoolVal(False)),
+                 ("inv is taken of k modulo N", z3.And(a_inv.t == k.t, z3.BoolVal(n_inv == N))),
                  ("r is the abscissa of k*G", r.t == xk.t),
                  ("v in {27, 28}", z3.Or(v.t == 27, v.t == 28)),
                  ("s = s0 or N - s0 with s0 = k^-1 (z + r d) mod N", z3.If(flipped, s.t == N - s0.t, s.t == s0.t)),
